@@ -61,8 +61,14 @@ def main():
     log(f"symnp: property {pid} tier {tier}: {len(names)} harnesses, {args.jobs} jobs, back ends {list(solve.BINS)}")
     quick_ms = None
     wall_limit = meta.get('wall_limit', {}).get(tier, 600 if tier == 'quick' else 3000)
+    # whole-check exploration budget: no new exploration round is started after it, and a round's per-harness wall limit is
+    # cut to what is left (whatever is not explored is reported as undecided, never as success)
+    budget = meta.get('budget', {}).get(tier, 1500 if tier == 'quick' else 900)
+    if os.environ.get('SYMNP_BUDGET'):
+        budget = float(os.environ['SYMNP_BUDGET'])
+    wall_limit = min(wall_limit, budget)
     results = runner.run_workers(pid, names, tier, args.jobs, wall_limit, quick_ms, log)
-    esc_s = meta.get('escalate_s', {}).get(tier, 30 if tier == 'quick' else 240)
+    esc_s = meta.get('escalate_s', {}).get(tier, 30 if tier == 'quick' else 90)
     n_esc = runner.escalate(results, esc_s, args.jobs, log)
     log(f"  escalated {n_esc} obligations to the portfolio ({esc_s}s budget)")
     # further rounds: branch sides that were only skipped on sample evidence and could not be refuted are explored
@@ -80,6 +86,15 @@ def main():
                     roots.setdefault(n, []).append(dict(prefix=[tuple(x) for x in rec['prefix']], env=rec.get('env')))
         if not roots:
             break
+        left = budget - (time.time() - t0)
+        if left < 60:
+            log(f"  round {rnd}: not started, exploration budget of {budget:.0f}s used up; {sum(len(v) for v in roots.values())} branch sides stay unexplored")
+            for n, lst in roots.items():
+                for rec in results[n]['records']:
+                    if rec.get('kind') == 'side' and rec.get('explored') and any(tuple(map(tuple, rec['prefix'])) == tuple(x['prefix']) for x in lst):
+                        rec['explored'] = False
+            break
+        wall_limit = min(wall_limit, max(60.0, left))
         log(f"  round {rnd}: exploring {sum(len(v) for v in roots.values())} unrefuted branch sides in {len(roots)} harnesses")
         more = runner.run_workers(pid, list(roots), tier, args.jobs, wall_limit, quick_ms, log, roots=roots)
         runner.escalate(more, esc_s, args.jobs, log)
